@@ -187,15 +187,36 @@ func isUnlinkRoutine(f *ssa.Function) bool {
 	return dec
 }
 
-// unlinkCalls lists calls in f that release a node: static calls of an unlink routine, or interface calls (node.delete)
-// one of whose implementations is an unlink routine.
-func unlinkCalls(a *lockAnalysis, f *ssa.Function) []ssa.CallInstruction {
-	var out []ssa.CallInstruction
+// relSite is a place where a node is released: a call of an unlink routine (static, or an interface call one of whose
+// implementations is one), or the decrement of a link counter written out in the function itself.
+type relSite struct {
+	in  ssa.Instruction
+	obj ssa.Value // the node released
+}
+
+func (r relSite) Block() *ssa.BasicBlock { return r.in.Block() }
+func (r relSite) Pos() token.Pos         { return r.in.Pos() }
+
+func unlinkCalls(a *lockAnalysis, f *ssa.Function) []relSite {
+	var out []relSite
 	eachCall(f, func(ci ssa.CallInstruction) {
 		for _, callee := range a.calleesOf(ci) {
 			if isUnlinkRoutine(callee) {
-				out = append(out, ci)
+				out = append(out, relSite{ci, callRecv(ci)})
 				return
+			}
+		}
+	})
+	if !isUnlinkRoutine(f) {
+		return out
+	}
+	// f decrements a link counter itself (the body of the release routine written out at its former call site)
+	eachInstr(f, func(in ssa.Instruction) {
+		if st, ok := in.(*ssa.Store); ok {
+			if fa, ok := st.Addr.(*ssa.FieldAddr); ok && fieldName(fa.X.Type(), fa.Field) == "nlink" {
+				if b, ok := strip(st.Val).(*ssa.BinOp); ok && b.Op == token.SUB {
+					out = append(out, relSite{st, fa.X})
+				}
 			}
 		}
 	})
@@ -281,7 +302,7 @@ func c05Nlink(rc *RuleCtx) {
 			ei := errResultIndex(f.Signature)
 			for _, uc := range ucs {
 				// inside a range loop: the release must run on every iteration, i.e. dominate the loop latch
-				if lp := enclosingRangeHeader(uc); lp != nil {
+				if lp := enclosingRangeHeader(uc.in); lp != nil {
 					for _, pred := range lp.Preds {
 						if reachableFrom(lp)[pred] && pred != lp && lp.Dominates(pred) { // back edge
 							if !uc.Block().Dominates(pred) {
@@ -295,9 +316,9 @@ func c05Nlink(rc *RuleCtx) {
 			}
 			// outside loops: at least one release dominates every successful return that follows a removal
 			if bad == "" {
-				var topLevel []ssa.CallInstruction
+				var topLevel []relSite
 				for _, uc := range ucs {
-					if enclosingRangeHeader(uc) == nil {
+					if enclosingRangeHeader(uc.in) == nil {
 						topLevel = append(topLevel, uc)
 					}
 				}
@@ -319,7 +340,7 @@ func c05Nlink(rc *RuleCtx) {
 						}
 						okR := false
 						for _, uc := range topLevel {
-							if domInstr(uc, r) {
+							if domInstr(uc.in, r) {
 								okR = true
 							}
 						}
@@ -343,7 +364,7 @@ func c05Nlink(rc *RuleCtx) {
 			ok := false
 			for _, uc := range unlinkCalls(a, f) {
 				// the released node must be the one found under the destination (second path parameter)
-				if derivesFromParam(objKeyOf(callRecv(uc)).root, f, 1, 0) {
+				if uc.obj != nil && derivesFromParam(objKeyOf(uc.obj).root, f, 1, 0) {
 					ok = true
 				}
 			}
@@ -410,6 +431,16 @@ func c05Index(rc *RuleCtx) {
 				case "removeAll":
 					if ci.Parent().Name() == "RemoveAll" {
 						nDel++
+						clears++
+					}
+				}
+			}
+		})
+		// the same written out: the node's children map dropped by a store of nil
+		eachInstr(f, func(in ssa.Instruction) {
+			if st, ok := in.(*ssa.Store); ok {
+				if fa, ok := st.Addr.(*ssa.FieldAddr); ok && fieldName(fa.X.Type(), fa.Field) == "children" {
+					if k, isC := strip(st.Val).(*ssa.Const); isC && k.IsNil() && !objKeyOf(fa).fresh {
 						clears++
 					}
 				}
